@@ -22,6 +22,9 @@ C29  Associate resolution and merging preserve program behaviour.
      is built from the association *list*; going through a mapping keyed by the
      selector collapses two names bound to the same selector and one of them is
      never replaced.
+ R8  ``_match_range_indices`` is executed over abstract subscripts: ``y(:)`` keeps
+     the section of the selector, other subscripts replace it in order, fixed
+     subscripts of the selector stay.
  R6  the subscripts of a substituted symbol are resolved themselves before the
      range matching in ``ResolveAssociateMapper.map_array``.
  R7  merging keeps every name bound: an association moved to the enclosing block
@@ -135,6 +138,54 @@ def run(ctx):
               'body not replaced by the transformed body / symbols not rescoped')
     _r4_r5(ctx)
     _r6_r7(ctx)
+    _r8(ctx)
+
+
+def _r8(ctx):
+    from sa.miniev import run_function, Unknown
+    m = ctx.model
+    ctx.rule('R8', '_match_range_indices, executed abstractly: a full-range subscript `:` keeps the section of the selector, any other '
+                   'subscript replaces it, fixed subscripts of the selector stay')
+    M = m.get_class(FILE, 'ResolveAssociateMapper')
+    f = M.function('_match_range_indices')
+    if f is None:
+        raise AnalysisError('ResolveAssociateMapper._match_range_indices vanished')
+
+    class R:                                        # abstract RangeIndex
+        def __init__(self, lower=None, upper=None, step=None):
+            self.lower, self.upper, self.step = lower, upper, step
+            self.start, self.stop = lower, upper
+
+        def __repr__(self):
+            return f'{self.lower or ""}:{self.upper or ""}' + (f':{self.step}' if self.step else '')
+
+        def __eq__(self, o):
+            return isinstance(o, R) and (self.lower, self.upper, self.step) == (o.lower, o.upper, o.step)
+
+        def __hash__(self):
+            return hash((self.lower, self.upper, self.step))
+    import types
+    symns = types.SimpleNamespace(RangeIndex=R)
+    pars = [a.arg for a in f.node.args.args if a.arg not in ('self', 'cls')]
+    SEL = R(1, 'n-1')
+    cases = [((SEL, 2), (R(),), (SEL, 2), 'y(:) keeps arr(1:n-1, 2)'),
+             ((SEL, 2), ('i',), ('i', 2), 'y(i) becomes arr(i, 2)'),
+             ((R(), 2), (R(),), (R(), 2), 'z(:) stays arr(:, 2)'),
+             ((SEL, R()), (R(2, 3), 'j'), (R(2, 3), 'j'), 'w(2:3, j) replaces both sections')]
+    for exprs, idx, want, label in cases:
+        env = {pars[0]: exprs, pars[1]: idx, 'sym': symns, 'isinstance': isinstance, 'tuple': tuple, 'len': len, 'iter': iter, 'next': next,
+               'any': any, 'warning': lambda *a: None, 'RangeIndex': R}
+        try:
+            got = run_function(f.node, env)
+        except Unknown as u:
+            raise AnalysisError(f'_match_range_indices uses `{u}`, outside the evaluated fragment')
+        inst = f'_match_range_indices:{label}'
+        if tuple(got) == tuple(want):
+            ctx.judge('R8', inst)
+        else:
+            ctx.violation('R8', 'ResolveAssociateMapper._match_range_indices:binding', f'{FILE}:{f.node.lineno}',
+                          f'selector subscripts {exprs} with use subscripts {idx} give {tuple(got)}, expected {tuple(want)} ({label}): the resolved '
+                          f'reference covers other elements than the associate name did', instance=inst)
 
 
 def _r6_r7(ctx):
@@ -267,6 +318,8 @@ def _r4_r5(ctx):
 
 
 MUTANTS = [
+    Mutant('full-range-replaces-selector-section', FILE, "                _bind(e, next(it)) if isinstance(e, sym.RangeIndex) else e", "                next(it) if isinstance(e, sym.RangeIndex) else e",
+           expect=('R8', 'binding')),
     Mutant('replaced-subscripts-not-resolved', FILE, "            new_dims = self.rec(new.dimensions, *args, **kwargs)\n            new_dims = self._match_range_indices(new_dims, expr_dims)",
            "            new_dims = self._match_range_indices(new.dimensions, expr_dims)", expect=('R6', 'subscripts-not-resolved')),
     Mutant('merge-dedup-by-selector', FILE, "            if (expr, name) not in o.parent.associations\n", "            if expr not in o.parent.association_map\n",
